@@ -370,11 +370,33 @@ func (rc *rangeCtx) compute(v ssa.Value) *ival {
 		// induction variable: constants and phi +/- positive constant
 		var inits []*ival
 		up, down, other := false, false, false
-		for _, e := range x.Edges {
+		var upBound *big.Int // what the facts on the back edge say about the incremented value (rotated loops: `k = phi+1; if k < n`)
+		upBounded := true
+		for ei, e := range x.Edges {
 			if bo, ok := e.(*ssa.BinOp); ok && (bo.Op == token.ADD || bo.Op == token.SUB) && bo.X == ssa.Value(x) {
 				if k, ok := constBig(bo.Y); ok && k.Sign() > 0 {
 					if bo.Op == token.ADD {
 						up = true
+						fullE := rc.full(e.Type())
+						if fullE != nil && ei < len(x.Block().Preds) {
+							pred := x.Block().Preds[ei]
+							ive := refine(e, &ival{lo: fullE.lo, hi: fullE.hi}, pred)
+							if len(pred.Instrs) > 0 {
+								if iff, ok := pred.Instrs[len(pred.Instrs)-1].(*ssa.If); ok && pred.Succs[0] != pred.Succs[1] {
+									truth := pred.Succs[0] == x.Block()
+									ive = refineByFacts(e, ive, factCmps(Fact{iff.Cond, truth, iff}))
+								}
+							}
+							if ive != nil && ive.hi.Cmp(fullE.hi) < 0 {
+								if upBound == nil || ive.hi.Cmp(upBound) > 0 {
+									upBound = ive.hi
+								}
+							} else {
+								upBounded = false
+							}
+						} else {
+							upBounded = false
+						}
 					} else {
 						down = true
 					}
@@ -411,7 +433,11 @@ func (rc *rangeCtx) compute(v ssa.Value) *ival {
 			lo, hi = bmin(lo, iv.lo), bmax(hi, iv.hi)
 		}
 		if up {
-			hi = full.hi
+			if upBounded && upBound != nil {
+				hi = bmax(hi, upBound)
+			} else {
+				hi = full.hi
+			}
 		}
 		if down {
 			lo = full.lo
